@@ -421,7 +421,7 @@ PROPS["C27"] = dict(
                "from_str", "<I192 / I256 as FromStr>::from_str (repo wrapper around bnum's parser)",
                "I192/I256 checked_mul / checked_add / checked_sub / pow / is_negative wrappers"],
     bounds="every ASCII string (each byte 0..=127 symbolic) of length 0..=5 (Decimal, quick; 0..=7 thorough) and "
-           "0..=4 (PreciseDecimal, quick; 0..=6 thorough); the split on '.' forks on every placement of the dots",
+           "0..=5 (PreciseDecimal, quick; 0..=7 thorough); the split on '.' forks on every placement of the dots",
     outside="longer strings (hence range overflow and more than 7 digits), non-ASCII text, Display and therefore the "
             "print -> parse round trip (core::fmt is not modelled)",
     assumptions=["bnum's BInt::from_str_radix(_, 10) as in the library model (read from bnum 0.11 src/bint/radix.rs; "
@@ -470,3 +470,22 @@ PROPS["C06"] = dict(
     trusted_base=MIR_TB,
     mir=True,
 )
+
+
+PROPS["C14"]["functions"].append(
+    "radix_substate_store_impls::substate_database_overlay::merge_database_updates and the From conversions between "
+    "DatabaseUpdates and the staging types (MIR->SMT; BTreeMaps as bounded symbolic slot arrays, the incoming IndexMaps "
+    "as entry lists)")
+PROPS["C14"]["bounds"] += ("; Engine M: ONE commit merged into an arbitrary staged state of <= 2 nodes x <= 2 "
+                           "partitions (Delta or Reset) x <= 1 entry each (capacity 3, two slots kept free for the "
+                           "commit), the commit touching one partition (Delta or Reset, symbolic) with 2 entries; "
+                           "every key and value symbolic; the verdict is compared at an arbitrary (node, partition, "
+                           "sort key)")
+PROPS["C14"]["outside"] = ("SubstateDatabaseOverlay::{get_raw_substate_by_db_key, list_raw_values_from_db_key} (the "
+                           "reads combine the staged state with the root through OverlayingIterator, whose merge is the "
+                           "Kani part of this claim) and commit_overlay_into_root_store; commits touching several "
+                           "partitions or nodes at once; staged partitions with more entries than the slot capacity")
+PROPS["C14"]["assumptions"] += ["BTreeMap behaves as a dictionary (slot-array model); IndexMap iteration = insertion "
+                                "order over distinct keys (entry-list model)"]
+PROPS["C14"]["trusted_base"] = KANI_TB + MIR_TB
+PROPS["C14"]["mir"] = True
